@@ -693,6 +693,18 @@ def fam_regression(rng):
     return [Case("regression", a, it) for a, it in REGRESSION]
 
 
+def fam_findings():
+    """witness inputs of /verif/known_findings.json, always part of the corpus"""
+    import json
+    import os
+    path = os.path.join(os.path.dirname(os.path.dirname(os.path.abspath(__file__))), "known_findings.json")
+    out = []
+    for f in json.load(open(path))["findings"]:
+        for w in f["witnesses"]:
+            out.append(Case("regression", w["attr"], w["item"], macro=w["macro"], tags={"finding": f["id"], "property": f["property"]}))
+    return out
+
+
 # ------------------------------------------------------------------------------------------------
 
 def build_corpus(seed, tier):
@@ -700,6 +712,7 @@ def build_corpus(seed, tier):
     thorough = tier == "thorough"
     k = 8 if thorough else 1
     cases = []
+    cases += fam_findings()
     cases += fam_regression(rng)
     cases += fam_fn_general(rng, 600 * k)
     cases += fam_mod_general(rng, 300 * k)
